@@ -22,6 +22,7 @@ import (
 	"github.com/moorara/algo/generic"
 	"github.com/moorara/algo/grammar"
 	"github.com/moorara/algo/hash"
+	"github.com/moorara/algo/parser/lr"
 	st "github.com/moorara/algo/symboltable"
 
 	"verif/harness/internal/rng"
@@ -400,11 +401,16 @@ func variants(kind string, tier string) []cfg {
 		add(4, 2, 1, 4, 1)
 		add(16, 4, 1, 8, 1)
 		add(64, 5, 2, 5, 1)
+		// maxLF < 2*minLF: the table rebuilt by a shrink grows again while entries are re-inserted (nested resize)
+		add(16, 4, 1, 6, 1)
+		add(4, 3, 1, 5, 1)
 	case "linear":
 		add(64, 1, 8, 1, 2)
 		add(32, 1, 8, 1, 4)
 		add(128, 1, 4, 1, 2)
 		add(32, 3, 16, 3, 8)
+		add(32, 1, 4, 3, 8) // nested resize on shrink
+		add(64, 3, 8, 1, 2)
 	default:
 		add(37, 1, 8, 1, 2)
 		add(31, 1, 8, 1, 4)
@@ -413,6 +419,8 @@ func variants(kind string, tier string) []cfg {
 		add(127, 1, 8, 1, 2)
 		add(31, 1, 8, 3, 8)
 		add(67, 1, 16, 1, 4)
+		add(31, 1, 4, 3, 8) // nested resize on shrink
+		add(67, 3, 8, 1, 2)
 	}
 	return vs
 }
@@ -668,15 +676,75 @@ func adversarial(r *rng.R, c cfg, thorough bool) {
 // the driver only requires that no operation hangs or panics and that Get answers as a map of heads would.
 //
 //	header: client productions      ops: A i -> ok   R i -> ok   X i -> ok (RemoveAll)   G i -> <number of bodies>
-func runClient(ops []string) {
-	w.Begin("client productions")
+func runClient(kind string, ops []string) {
+	w.Begin("client %s", kind)
 	ps := grammar.NewProductions()
+	var first grammar.FIRST
+	var follow grammar.FOLLOW
+	var pt *lr.ParsingTable
+	nt := func(i int) grammar.NonTerminal { return grammar.NonTerminal("N" + strconv.Itoa(i)) }
+	tm := func(i int) grammar.Terminal { return grammar.Terminal("t" + strconv.Itoa(i)) }
 	prod := func(i int) *grammar.Production {
 		return &grammar.Production{Head: grammar.NonTerminal("N" + strconv.Itoa(i)), Body: grammar.String[grammar.Symbol]{grammar.Terminal("t")}}
 	}
 	res := guardedSeq(len(ops), func(j int) string {
 		f := strings.Fields(ops[j])
 		i, _ := strconv.Atoi(f[1])
+		a := func(x int) int { v, _ := strconv.Atoi(f[x]); return v }
+		switch kind {
+		case "firstfollow":
+			// B n: the chain grammar N0 -> t0 N1 | t0, ..., N(n-1) -> t(n-1); FIRST and FOLLOW tables are built
+			// F i: |FIRST(Ni)| (= 1)    W i: |FOLLOW(Ni)| terminals (= 0, only the endmarker follows)
+			switch f[0] {
+			case "B":
+				var terms []grammar.Terminal
+				var nts []grammar.NonTerminal
+				var prods []*grammar.Production
+				for x := 0; x < i; x++ {
+					terms = append(terms, tm(x))
+					nts = append(nts, nt(x))
+					prods = append(prods, &grammar.Production{Head: nt(x), Body: grammar.String[grammar.Symbol]{tm(x)}})
+					if x+1 < i {
+						prods = append(prods, &grammar.Production{Head: nt(x), Body: grammar.String[grammar.Symbol]{tm(x), nt(x + 1)}})
+					}
+				}
+				g := grammar.NewCFG(terms, nts, prods, nt(0))
+				first = g.ComputeFIRST()
+				follow = g.ComputeFOLLOW(first)
+				return "ok"
+			case "F":
+				return strconv.Itoa(first(grammar.String[grammar.Symbol]{nt(i)}).Terminals.Size())
+			case "W":
+				return strconv.Itoa(follow(nt(i)).Terminals.Size())
+			}
+			return "?"
+		case "lrtable":
+			// N n: new table   A s a x: AddACTION(s, ta, SHIFT x) -> t|f   S s A x: SetGOTO -> ok
+			// Q s a: ACTION -> shift target | err      G s A: GOTO -> state | err
+			switch f[0] {
+			case "N":
+				pt = lr.NewParsingTable(nil, nil, nil, nil)
+				return "ok"
+			case "A":
+				return b2s(pt.AddACTION(lr.State(i), tm(a(2)), &lr.Action{Type: lr.SHIFT, State: lr.State(a(3))}))
+			case "S":
+				pt.SetGOTO(lr.State(i), nt(a(2)), lr.State(a(3)))
+				return "ok"
+			case "Q":
+				act, err := pt.ACTION(lr.State(i), tm(a(2)))
+				if err != nil {
+					return "err"
+				}
+				return strconv.Itoa(int(act.State))
+			case "G":
+				st, err := pt.GOTO(lr.State(i), nt(a(2)))
+				if err != nil {
+					return "err"
+				}
+				return strconv.Itoa(int(st))
+			}
+			return "?"
+		}
 		switch f[0] {
 		case "A":
 			ps.Add(prod(i))
@@ -728,7 +796,36 @@ func clients(r *rng.R, rounds int) {
 	for i := 0; i <= resident; i++ {
 		ops = append(ops, fmt.Sprintf("G %d", i))
 	}
-	runClient(ops)
+	runClient("productions", ops)
+}
+
+func clientsFirstFollow(r *rng.R, n int) {
+	ops := []string{fmt.Sprintf("B %d", n)}
+	for i := 0; i < n; i += 1 + r.Intn(3) {
+		ops = append(ops, fmt.Sprintf("F %d", i), fmt.Sprintf("W %d", i))
+	}
+	runClient("firstfollow", ops)
+}
+
+func clientsLRTable(r *rng.R, states, syms, cells int) {
+	ops := []string{"N 0"}
+	for c := 0; c < cells; c++ {
+		s, x := r.Intn(states), r.Intn(syms)
+		switch r.Intn(4) {
+		case 0:
+			ops = append(ops, fmt.Sprintf("A %d %d %d", s, x, r.Intn(states)))
+		case 1:
+			ops = append(ops, fmt.Sprintf("S %d %d %d", s, x, r.Intn(states)))
+		case 2:
+			ops = append(ops, fmt.Sprintf("Q %d %d", s, x))
+		case 3:
+			ops = append(ops, fmt.Sprintf("G %d %d", s, x))
+		}
+	}
+	for s := 0; s < states && s < 40; s++ {
+		ops = append(ops, fmt.Sprintf("Q %d %d", s, r.Intn(syms)), fmt.Sprintf("G %d %d", s, r.Intn(syms)))
+	}
+	runClient("lrtable", ops)
 }
 
 func main() {
@@ -752,7 +849,7 @@ func main() {
 		maxHung = 1
 		for _, c := range cs {
 			if strings.HasPrefix(c.Head, "client") {
-				runClient(c.Ops)
+				runClient(strings.Fields(c.Head)[1], c.Ops)
 				continue
 			}
 			cf, h := parseHead(c.Head)
@@ -795,6 +892,10 @@ func main() {
 			} else {
 				exhaustive(c, growLimit(c)-3, 3)
 			}
+			// a configuration with maxLF < 2*minLF, prefilled beyond its first growth so that deletes shrink it
+			c = vs[len(vs)-2]
+			c.hf = "id"
+			exhaustive(c, growLimit(c)+2, 3)
 		}
 	case "random":
 		r := rng.FromEnv(2)
@@ -872,6 +973,10 @@ func main() {
 		}
 		for i := 0; i < n; i++ {
 			clients(r, r.Range(40, 400))
+		}
+		for i := 0; i < n/2; i++ {
+			clientsFirstFollow(r, r.Range(20, 300))
+			clientsLRTable(r, r.Range(5, 200), r.Range(3, 120), r.Range(200, 3000))
 		}
 	case "adversarial":
 		r := rng.FromEnv(4)
